@@ -1150,7 +1150,7 @@ func c20Exec(t *testing.T, col *Collector, h c20Hist) string {
 func TestC20(t *testing.T) {
 	seed := envInt("VERIF_SEED", 1)
 	col := NewCollector("C20", seed)
-	n := 72
+	n := 120
 	if tier() == "thorough" {
 		n = 1200
 	}
